@@ -36,6 +36,7 @@ ZONES = [
     "Pacific/Auckland",
     "Pacific/Chatham",
     "Africa/Casablanca",
+    "Africa/Monrovia",  # offset -00:44:30 until January 1972: an offset ISO 8601 cannot express
 ]
 _trans = {}
 
@@ -121,6 +122,11 @@ def _check_dt(cs, what, text, want_epoch, zone, z, ctx, exact=True):
         cs.violation("datetime-without-offset", {"kind": "datetime-no-offset", "attr": what}, {**ctx, "text": text})
         return
     want_off = _dt.datetime.fromtimestamp(want_epoch, z).utcoffset()
+    if want_off.total_seconds() % 60:
+        # the offset in force has a seconds part (local mean time): ISO 8601 / xs:dateTime cannot carry it, the instant
+        # has to be right and the text has to say which offset it uses - UTC is the only one that is not a guess
+        cs.count("offsets_with_seconds_checked")
+        want_off = _dt.timedelta(0)
     got_epoch = int(dt.timestamp())
     if got_epoch != int(want_epoch) or dt.utcoffset() != want_off:
         wrong_instant = got_epoch != int(want_epoch)
